@@ -623,3 +623,14 @@ Section RACE.
     - destruct F1 as [[g1 _] _]. exact g1.
   Qed.
 End RACE.
+
+(* a workspace without the requested job and without stale temp files satisfies the precondition *)
+Lemma pre_ok_fresh : forall frepr w1 w2 wr f0 s,
+  (forall r, get f0 (dirp frepr w1 w2 wr s ++ r) = None) -> pre_ok frepr w1 w2 wr f0 s.
+Proof.
+  intros frepr w1 w2 wr f0 s H. unfold pre_ok. repeat split.
+  - left. rewrite <- (app_nil_r (dirp frepr w1 w2 wr s)). apply H.
+  - left. apply H.
+  - apply H.
+  - intro Hn. exfalso. apply Hn. apply H.
+Qed.
